@@ -183,6 +183,16 @@ func RefinedUnknown(r *rng.R, t cty.Type) cty.Value {
 			b = b.CollectionLengthUpperBound(lo + 1 + r.Intn(3))
 		case 2:
 			b = b.CollectionLengthLowerBound(lo).CollectionLengthUpperBound(lo + 1 + r.Intn(3))
+		case 3:
+			// the ends: an upper bound of zero, both bounds equal (the value may become known), nothing at all
+			switch r.Intn(4) {
+			case 0:
+				b = b.CollectionLengthUpperBound(0)
+			case 1:
+				b = b.CollectionLengthLowerBound(lo).CollectionLengthUpperBound(lo)
+			case 2:
+				b = b.CollectionLengthUpperBound(lo)
+			}
 		}
 	}
 	return b.NewValue()
